@@ -75,3 +75,56 @@ def allNodes : Nat → Val → Bool
   | fuel+1, v => v.isNode && v.children.all fun ch => allNodes fuel ch.2
 
 end PycModel
+
+namespace PycModel
+
+/-! ## `Node.__repr__` / `_repr` (c_ast.py:21-63) -/
+
+def hex2 (n : Nat) : String :=
+  let d (k : Nat) : Char := if k < 10 then Char.ofNat (48 + k) else Char.ofNat (87 + k)
+  String.ofList [d (n / 16), d (n % 16)]
+
+/-- Python `repr` of an ASCII `str` (quote choice and escapes as CPython's `unicode_repr`);
+non-ASCII characters are passed through (CPython does so for printable ones) -/
+def pyReprStr (s : String) : String :=
+  let hasS := s.any (· == '\'')
+  let hasD := s.any (· == '"')
+  let q : Char := if hasS && !hasD then '"' else '\''
+  let body := s.foldl (fun acc c =>
+    if c == q || c == '\\' then (acc.push '\\').push c
+    else if c == '\n' then acc ++ "\\n"
+    else if c == '\r' then acc ++ "\\r"
+    else if c == '\t' then acc ++ "\\t"
+    else if c.val < 32 || c.val == 127 then acc ++ "\\x" ++ hex2 c.toNat
+    else acc.push c) ""
+  (String.singleton q) ++ body ++ (String.singleton q)
+
+/-- `s.replace("\n", "\n" + pad)` -/
+def indentNl (pad : String) (s : String) : String :=
+  s.foldl (fun acc c => if c == '\n' then (acc.push '\n') ++ pad else acc.push c) ""
+
+def spacesStr (n : Nat) : String := String.ofList (List.replicate n ' ')
+
+mutual
+/-- `_repr(obj)` -/
+def reprVal : Val → String
+  | .none => "None"
+  | .str s => pyReprStr s
+  | .list vs => "[" ++ ",\n ".intercalate (reprListElems vs) ++ "\n]"
+  | .node c _ fs =>
+    let cn := c.name
+    let names := c.fields.map (·.1)
+    cn ++ "(" ++ reprFields cn names fs true ++ (if names.isEmpty then "" else "\n " ++ spacesStr cn.length) ++ ")"
+def reprListElems : List Val → List String
+  | [] => []
+  | v :: vs => indentNl " " (reprVal v) :: reprListElems vs
+/-- the `for name in self.__slots__[:-2]` loop -/
+def reprFields (cn : String) : List String → List Val → Bool → String
+  | n :: ns, v :: vs, first =>
+    (if first then "" else ",\n " ++ spacesStr cn.length) ++
+      n ++ "=" ++ indentNl ("  " ++ spacesStr (n.length + cn.length)) (reprVal v) ++
+      reprFields cn ns vs false
+  | _, _, _ => ""
+end
+
+end PycModel
